@@ -48,6 +48,23 @@ void* alloca(size_t);
 #define vr_alloca(n) alloca(n)
 #define VR_POISON(p, n) ((void)0)
 #endif
+/* relational pointer comparison: inside one object by offset (foldable by CBMC's symex), otherwise by address */
+#ifdef __CPROVER__
+#define VR_PCMP(n, op) static inline int vr_ptr_##n(const char* a, const char* b){ \
+  if (__CPROVER_POINTER_OBJECT(a) == __CPROVER_POINTER_OBJECT(b)) return __CPROVER_POINTER_OFFSET(a) op __CPROVER_POINTER_OFFSET(b); \
+  return (uintptr_t)a op (uintptr_t)b; }
+#else
+#define VR_PCMP(n, op) static inline int vr_ptr_##n(const char* a, const char* b){ return (uintptr_t)a op (uintptr_t)b; }
+#endif
+VR_PCMP(lt, <) VR_PCMP(le, <=) VR_PCMP(gt, >) VR_PCMP(ge, >=)
+#ifdef __CPROVER__
+/* strlen with a registry of strings whose length the harness knows concretely (keeps allocation sizes concrete) */
+uint64_t vr_strlen(const char* s);
+void vr_register_string(const char* s, uint64_t len);
+#else
+#define vr_strlen(s) strlen(s)
+#define vr_register_string(s, n) ((void)0)
+#endif
 #ifdef __CPROVER__
 /* typed word-wise copies: keep CBMC's constant propagation alive across std::copy / vector construction */
 void* vr_memcpy(void* d, const void* s, uint64_t n);
